@@ -595,7 +595,9 @@ def _walker(ctx, src_exprs):
             # the collision probe: whichever stat-like question the code asks about a path other than the entry it is copying.
             # What counts as "already there" is the *entry* (lstat): a dangling symbolic link exists and would be written through
             src_side = (seg["expr"], ("canon", seg["expr"]))
-            ex_t = [e for e in sev if e.name in ("Path::exists", "Path::try_exists", "symlink_metadata", "Path::is_symlink", "Path::is_file")
+            # (only what is asked *before* the entry is classified: the directory arm's own look at an existing target comes later)
+            upto = sev.index(kind[0]) if kind else len(sev)
+            ex_t = [e for e in sev[:upto] if e.name in ("Path::exists", "Path::try_exists", "symlink_metadata", "Path::is_symlink", "Path::is_file")
                     and e.args and e.args[0] not in src_side]
             if ex_t:
                 ctx.lemma(eng, "C08: the destination is probed for collisions only under no-clobber", p.pc, noclob)
